@@ -623,7 +623,9 @@ class AnsiString:
         else:
             raise TypeError('Invalid type for __getitem__')
 
-        new_s = AnsiString(self._s[val])
+        # The selected text is taken as it is - it must not be parsed for ANSI directives again
+        new_s = AnsiString()
+        new_s._s = self._s[val]
 
         if not new_s._s:
             # Special case - string is now empty
